@@ -455,11 +455,8 @@ func (e *Exec) builtin(fr *frame, name string, args []Value, c *ssa.CallCommon, 
 			if a.M.Lazy != nil {
 				e.unsupported("len of lazy input map")
 			}
-			for _, k := range a.M.K {
-				if _, ok := keyOf(k); !ok {
-					e.unsupported("len of map with symbolic keys")
-				}
-			}
+			// entries are pairwise distinct on every path: mapUpdate forks on the
+			// equality of a symbolic key with each existing key before adding one
 			return cbv(uint64(len(a.M.K)), 64)
 		case *PtrV: // pointer to array
 			return cbv(uint64(c.Args[0].Type().Underlying().(*types.Pointer).Elem().Underlying().(*types.Array).Len()), 64)
@@ -684,7 +681,7 @@ func (e *Exec) mapTouch(m *MapObj, site string) {
 			e.dirtyMaps = append(e.dirtyMaps, m)
 		}
 	}
-	if e.monitorOn && m.Born <= e.monitorEpoch {
+	if e.monitorOn && m.Born <= e.monitorEpoch && !isGhostTag(m.Tag) {
 		fn := ""
 		if e.curFn != nil {
 			fn = e.curFn.String()
@@ -882,14 +879,29 @@ func (e *Exec) mapLookup(m *MapV, k Value, mt *types.Map) (Value, *BoolV) {
 	}
 	val := zero
 	found := cbool(false)
+	conds := make([]*BoolV, len(m.M.K))
+	exclusive := true
 	for i := len(m.M.K) - 1; i >= 0; i-- {
 		c := e.valEq(m.M.K[i], k)
+		conds[i] = c
+		if _, ok := keyOf(m.M.K[i]); !ok {
+			exclusive = false
+		}
 		nv, ok := e.ite(c, e.force(m.M.V[i]), val)
 		if !ok {
 			e.unsupported("unmergeable map values in symbolic lookup")
 		}
 		val = nv
 		found = bor(c, found)
+	}
+	if exclusive {
+		// distinct concrete keys: the conditions are mutually exclusive, so string
+		// leaves that are concrete in every entry become finite-choice strings
+		vals := make([]Value, len(m.M.V))
+		for i := range vals {
+			vals[i] = e.force(m.M.V[i])
+		}
+		val = e.withAlts(val, conds, vals, zero)
 	}
 	// long ite chains are named to keep terms small
 	return e.nameValue(val, "lk"), e.nameBool(found, "lkf")
@@ -943,7 +955,7 @@ func (e *Exec) nameValue(v Value, pfx string) Value {
 		}
 		n := e.fresh(pfx, "String")
 		e.assume("(= " + n + " " + x.T + ")")
-		return &StrV{T: n}
+		return &StrV{T: n, Alts: x.Alts, Else: x.Else}
 	case *StructV:
 		n := &StructV{F: make([]Value, len(x.F))}
 		for i := range x.F {
